@@ -26,6 +26,7 @@ RULE = ('histories = ALL sequences of length <= 3 and sampled ones of length 4..
         '(configuration, sequence).')
 RULE += ('  Round 2: MPS models with one convolution excluded from the search and plain params/ops metrics (constant cost of a non-NAS layer under full_cost).')
 RULE += ('  Round 4: warm-up forward in grad mode; first observation "as is": cost of the stored sample, its differentiability and its gradient w.r.t. the architectural parameters; PIT masks pruned for real in every other case.')
+RULE += ("  Round 5: 'mode_eval' (eval() without a forward) in the alphabet, executed by both twins.")
 ASSUMPTIONS = [
     'a forward in train mode legitimately moves BatchNorm statistics: the twin executes the same '
     'forwards',
@@ -43,7 +44,9 @@ EXHAUSTIVE = {'quick': False, 'thorough': False}
 EXHAUSTIVE_NOTE = 'all sequences of length <= 3 (quick: <= 2 + sampled 3) per model kind and mode'
 TIMEOUT = {'quick': 1500, 'thorough': 10000}
 
-ALPHABET = ['export', 'export_nobn', 'summary', 'cost', 'get_cost', 'switch_spec', 'forward']
+# 'mode_eval' / 'forward' are not observers: the twin executes them, too
+ALPHABET = ['export', 'export_nobn', 'summary', 'cost', 'get_cost', 'switch_spec', 'forward',
+            'mode_eval']
 
 
 def sequences(kind, max_len):
@@ -116,6 +119,10 @@ def do_op(m, op, record):
         torch.manual_seed(77)
         with torch.no_grad():
             nas(*m['xs'])
+    elif op == 'mode_eval':
+        # end of an epoch: the model is switched to eval (no forward yet) before cost is logged
+        # and the architecture exported
+        nas.eval()
 
 
 def run_case(case, ctx):
@@ -164,7 +171,7 @@ def run_case(case, ctx):
                                                      exc=repr(e)[:300]))
                 crashed = True
                 break
-            if op == 'forward':
+            if op in ('forward', 'mode_eval'):
                 do_op(T, op, {'exports': [], 'exports_nobn': [], 'switch': []})
         if crashed:
             continue
@@ -218,7 +225,7 @@ def run_case(case, ctx):
         except Exception as e:
             ctx.violation('observer-crash', dict(d0, sig='continue:' + type(e).__name__ + ':' + kind,
                                                  exc=repr(e)[:300]))
-        if any(o != 'forward' for o in seq):
+        if any(o not in ('forward', 'mode_eval') for o in seq):
             ctx.nontriv((kind, tuple(seq), case['cfg']['train'], case['cfg']['full_cost'],
                          case['cfg'].get('fold')))
         ctx.cls(f"{kind}-{'train' if case['cfg']['train'] else 'eval'}-len{len(seq)}")
